@@ -350,6 +350,7 @@ EXTRA = {
            "sides of positive length, each side solid or dashed), in the order the pipeline leaves them, are endorsed as exactly the "
            "rectangle of the box with radius r; a kernel-evaluated instance shows the pipeline produces that list for a drawn box.",
     "C07": " fragment_ranks_are_the_sources: the tie-break of the per-cell fragment order (Fragment::rank) is regenerated from fragment.rs.",
+    "C08": " whole_conversion_is_lexically_safe: the document Model/Convert.convertDoc returns is lexically safe for every text.",
     "C09": " no_emitted_group_has_collinear_touching_lines: every group of the whole endorsement stage (every <g>) is a contact group "
            "of one span, so it holds no two plain lines that are collinear and touching.",
     "C11": " whole_conversion_scales: convertDoc at scale (n*a)/(d*b) is convertDoc at n/d with every scaled number multiplied by a "
